@@ -205,7 +205,7 @@ def _decode_tla_string(s):
 
 
 def tlc(module_path, cfg_path, name, env=None, workers=16, coverage=True, cont=True,
-        timeout=1800, simulate=None, heap="8g", deadlock=False, dfs=False):
+        timeout=1800, simulate=None, heap="8g", deadlock=False, dfs=False, seed_arg=None):
     """Run TLC; parse summary, coverage and `VP|...` print lines."""
     meta = os.path.join(WORK, "tlc-" + name)
     shutil.rmtree(meta, ignore_errors=True)
@@ -221,6 +221,8 @@ def tlc(module_path, cfg_path, name, env=None, workers=16, coverage=True, cont=T
         cmd += ["-continue"]
     if simulate:
         cmd += ["-simulate", simulate[0], "-depth", str(simulate[1])]
+    if seed_arg is not None:
+        cmd += ["-seed", str(seed_arg)]
     if deadlock:
         cmd += ["-deadlock"]
     cmd += [module_path]
